@@ -332,6 +332,16 @@ async fn node_case(seed: u64, case: u64, rep: &mut Report) {
     // is not below an authentic stored prune point of its own log may disappear.
     drop(tx);
     drain.abort();
+    // A fresh node on the same database: re-opening a topic on the same node right after its
+    // stream handles were dropped races with the asynchronous clean-up of the sync handle.
+    drop(node);
+    let node = match p2panda::Node::builder().database_pool(store.pool().clone()).spawn().await {
+        Ok(n) => n,
+        Err(e) => {
+            rep.inconclusive(format!("node re-spawn failed: {e}"));
+            return;
+        }
+    };
     let before = dump_ops(&store).await;
     let (tx2, mut sub2) = match node.stream_from::<String>(topic, StreamFrom::Start).await { Ok(x) => x, Err(e) => { rep.inconclusive(format!("stream_from failed: {e}")); return; } };
     let fut = match tx2.publish("sentinel".to_string()).await { Ok(f) => f, Err(e) => { rep.inconclusive(format!("sentinel publish failed: {e}")); return; } };
